@@ -133,7 +133,7 @@ probe_command = S.struct_probe_command
 def build_corpus(tier, rng):
     c = Corpus(ID)
     thorough = tier == "thorough"
-    cands = [("systematic", it) for it in systematic()] + [("phf-overlap", it) for it in c01.declaration_order() if any(m.kind == "phf" for m in it.metas)]
+    cands = [("systematic", it) for it in systematic()] + c01.namesake_items(unit_only=True)[:2] + [("phf-overlap", it) for it in c01.declaration_order() if any(m.kind == "phf" for m in it.metas)]
     # the same definitions coming out of a macro_rules! expansion, every attribute VALUE (`= false`, `= "x"`) passed in as an `expr` /
     # `literal` fragment: `ascii_case_insensitive = false` stays false
     for j, (fam, it) in enumerate(list(cands)):
